@@ -297,8 +297,20 @@ def check_complex(ctx, case):
         ctx.nontrivial(('cplx', fmt, mode, elem, route, cont, tuple(vs)))
     ctx.sample(case, nontriv)
     sig = 'complex/%s/%s/%s' % (elem, cont, route)
-    ok, res = ctx.guard(case, store, fmt, mode, obj, route if not route.startswith('setitem') else 'ctor', cont, len(vs), (1, len(vs)),
-                        sig_prefix=sig + '/')
+    if route == 'setitem':
+        # indexed / sliced assignment into an object that already holds complex values
+        def do_setitem():
+            F = C.Fxp()
+            n = len(vs)
+            tmpl = F(np.zeros(n + 1, dtype=complex), s, w, f, rounding=mode[0], overflow=mode[1])
+            if cont == 'scalar':
+                tmpl[1] = obj
+            else:
+                tmpl[1:] = obj
+            return tmpl[1:], None
+        ok, res = ctx.guard(case, do_setitem, sig_prefix=sig + '/')
+    else:
+        ok, res = ctx.guard(case, store, fmt, mode, obj, route, cont, len(vs), (1, len(vs)), sig_prefix=sig + '/')
     if not ok:
         return
     x, _ = res
@@ -479,7 +491,7 @@ def st_complex_case(draw):
     n = draw(st.integers(1, 4))
     x4s = [[C.clamp_sig_bits(draw(C.st_x4(fmt, limit_bits=max(lim, 2))), 53) for _ in range(2)] for _ in range(n)]
     return {'check': 'complex', 'fmt': list(fmt), 'mode': list(draw(C.st_modes())), 'elem': draw(st.sampled_from(CPLX_ELEMS)),
-            'route': draw(st.sampled_from(('ctor', 'call', 'set_val'))), 'cont': draw(st.sampled_from(('scalar', '1d', 'list'))),
+            'route': draw(st.sampled_from(('ctor', 'call', 'set_val', 'setitem'))), 'cont': draw(st.sampled_from(('scalar', '1d', 'list'))),
             'x4s': x4s}
 
 
